@@ -703,6 +703,45 @@ def _loop_test(b, prov, header, body):
     return None
 
 
+def t04_cls0(run, fx, floors=True):
+    """class 0 is a class"""
+    import guards
+    rule = "T04-CLS0"
+    run.rule(rule, "class 0 of a ClassDef is a class like any other (OpenType, Class Definition Table: every glyph not listed is in class 0; PairPos "
+                   "format 2 has records for class 0, class sets of (chained) context format 2 are indexed from class 0): in layout.rs and context.rs a "
+                   "value returned by ClassDef::glyph_class_value is compared with the rule's class, used as an index or bounded - it is never "
+                   "tested against a constant")
+    sites, bad = 0, []
+    for b in fx.bodies:
+        if not b.path.startswith(("layout::", "context::")):
+            continue
+        calls = [(bi, t) for bi, t in b.calls() if (t["callee"].get("path") or "").endswith("ClassDef::glyph_class_value") and b.reachable(bi)]
+        if not calls:
+            continue
+        sites += len(calls)
+        prov = sym.Prov(b)
+
+        def is_class(x):
+            x = sym.strip(x)
+            while x[0] == "cast":
+                x = sym.strip(x[4])
+            return x[0] == "call" and (x[4] or x[1] or "").endswith("ClassDef::glyph_class_value")
+        for tb, fb, op, x, y, sw in guards.direct_branch_conditions(b, prov):
+            if op not in ("Eq", "Ne"):
+                continue
+            for u, v in ((x, y), (y, x)):
+                if is_class(u) and sym.strip(v)[0] == "c":
+                    bad.append((b, sw, sym.strip(v)[1]))
+    for b, sw, k in bad:
+        run.fail(rule, "class-const|%s|%s" % (b.path, k), "%s tests a glyph class value against the constant %s: glyphs of that class (class 0: every glyph the "
+                 "ClassDef does not list) are treated differently from the glyphs of any other class, the specification makes no such difference"
+                 % (b.path, k), b.loc(b.term(sw)))
+    if not bad and sites:
+        run.ok(rule, "%d uses of ClassDef::glyph_class_value, none compared with a constant" % sites)
+    if floors:
+        run.floor(rule, "calls of ClassDef::glyph_class_value in layout.rs / context.rs", sites, 5)
+
+
 def t04_run(run, fx, floors=True):
     import guards
     import loops
@@ -874,6 +913,8 @@ def check(run, fx, tier, floors=True):
     t04_rvrn(run, fx)
     t04_disp(run, fx)
     t04_skip(run, fx)
+    if floors or fx.body('layout::ClassDef::glyph_class_value') is not None:
+        t04_cls0(run, fx, floors)
     if floors or any((t['callee'].get('path') or '') in RUN_SPECS for b in fx.bodies for _, t in b.calls()):
         t04_run(run, fx, floors)
     if floors or fx.adt("context::IgnoreMarks") is not None:
